@@ -645,6 +645,7 @@ def p_rws(a, b, c, d):
 
 def p_from_pts(A6, pts):
     """numeric validation (relative tolerance 1e-9 on the mapped points) of the lstsq oracle: points in general position reproduce the map"""
+    import numpy as np
     from affine import Affine
     from odc.geo import xy_
     from odc.geo.math import affine_from_pts
@@ -656,7 +657,11 @@ def p_from_pts(A6, pts):
     # small extent the coefficients are ill-conditioned while the mapping is reproduced to ~1e-15 relative
     cx, cy = sum(p[0] for p in pts) / len(pts), sum(p[1] for p in pts) / len(pts)
     probe = list(pts) + [(cx, cy)]
-    ok = _close([B * p for p in probe], [A * p for p in probe], 1e-9)
+    # float64 cancellation: a*x + b*y + c may be small while its terms are large (control points far from the origin),
+    # so the admissible error scales with the size of the TERMS, not of the result
+    mag = [[1 + abs(A.a * x) + abs(A.b * y) + abs(A.c), 1 + abs(A.d * x) + abs(A.e * y) + abs(A.f)] for x, y in probe]
+    got, want = np.asarray([B * p for p in probe]), np.asarray([A * p for p in probe])
+    ok = bool(np.all(np.abs(got - want) <= 1e-9 * np.asarray(mag)))
     return ok, f"affine_from_pts -> {tuple(B)[:6]}"
 
 
@@ -676,10 +681,19 @@ def p_poly2d(coef, pts, A6):
         terms = [np.ones_like(px), px, py, px * py, px * px, py * py, px * px * py, px * py * py, px * px * py * py]
         return np.stack([sum(c[0] * t for c, t in zip(cf, terms)), sum(c[1] * t for c, t in zip(cf, terms))], axis=1)
 
+    def term_size(px, py):
+        """sum of |terms|: the scale float64 cancellation errors grow with (control points far from the origin)"""
+        terms = [np.ones_like(px), px, py, px * py, px * px, py * py, px * px * py, px * py * py, px * px * py * py]
+        return 1 + np.stack([sum(abs(c[0] * t) for c, t in zip(cf, terms)), sum(abs(c[1] * t) for c, t in zip(cf, terms))], axis=1)
+
+    def close(got, want, size):
+        return bool(np.all(np.abs(np.asarray(got, dtype="float64") - want) <= 1e-6 * size))
+
     bb = exact_map(x, y)
+    size = term_size(x, y)
     p = Poly2d.fit(aa, bb)
-    ok = _close(p(aa), bb, 1e-6)
-    ok = ok and _close(np.asarray(p(x, y)).T, bb, 1e-6)               # two-argument form returns (2, N)
+    ok = close(p(aa), bb, size)
+    ok = ok and close(np.asarray(p(x, y)).T, bb, size)               # two-argument form returns (2, N)
     a, b, c, d, e, f = A6
     M = np.asarray([[a, b], [d, e]], dtype="float64")
     t = np.asarray([c, f], dtype="float64")
@@ -688,7 +702,7 @@ def p_poly2d(coef, pts, A6):
     au = u @ M.T + t                                          # A u, applied with numpy
     want = exact_map(au[:, 0], au[:, 1])
     got = q(u)
-    ok2 = _close(got, want, 1e-6)
+    ok2 = close(got, want, term_size(au[:, 0], au[:, 1]))
     return ok and ok2, (f"max fit error {float(np.abs(p(aa) - bb).max())!r}; with_input_transform{tuple(A6)}: "
                         f"max |q(u) - map(A u)| = {float(np.abs(np.asarray(got) - want).max())!r}")
 
